@@ -18,7 +18,7 @@ type MemDBV2 struct {
 	keysByDuty map[core.Duty][]memDBKey // Key index by duty for fast deletion.
 	deadliner  core.Deadliner
 	closed     chan struct{}
-	notify     chan struct{} // Notification channel for data availability
+	notify     chan struct{} // Closed and replaced (under the write lock) by every Store to wake all waiters
 }
 
 // NewMemDBV2 creates a basic memory based AggSigDB.
@@ -27,7 +27,7 @@ func NewMemDBV2(deadliner core.Deadliner) *MemDBV2 {
 		// data, keysByDuty are okay to use without explicit initialization
 		deadliner:  deadliner,
 		closed:     make(chan struct{}),
-		notify:     make(chan struct{}, 1), // Buffered channel for non-blocking sends
+		notify:     make(chan struct{}),
 		data:       map[memDBKey]core.SignedData{},
 		keysByDuty: map[core.Duty][]memDBKey{},
 	}
@@ -68,6 +68,13 @@ func (m *MemDBV2) Store(ctx context.Context, duty core.Duty, set core.SignedData
 	default:
 	}
 
+	// Wake ALL waiters on return so that each re-checks its own key. This also runs when a later
+	// entry fails, since earlier entries of the set remain stored.
+	defer func() {
+		close(m.notify)
+		m.notify = make(chan struct{})
+	}()
+
 	for pubKey, data := range set {
 		subcommIdx, err := core.SyncSubcommitteeIndex(duty.Type, data)
 		if err != nil {
@@ -79,40 +86,37 @@ func (m *MemDBV2) Store(ctx context.Context, duty core.Duty, set core.SignedData
 		}
 	}
 
-	// Notify waiters that new data is available
-	select {
-	case m.notify <- struct{}{}:
-	default:
-		// Channel already has a pending notification
-	}
-
 	return nil
 }
 
 func (m *MemDBV2) Await(ctx context.Context, duty core.Duty, pubKey core.PubKey, subcommIdx core.SubcommitteeIndex) (core.SignedData, error) {
 	errMustLoop := errors.New("still needs loop")
 
-	query := func() (core.SignedData, error) {
+	// query returns the data if present, else the channel that the next Store will close.
+	// The channel is read under the same read lock as the lookup, so no Store can slip in between.
+	query := func() (core.SignedData, <-chan struct{}, error) {
 		m.RLock()
 		defer m.RUnlock()
 
 		select {
 		case <-ctx.Done():
-			return nil, ctx.Err()
+			return nil, nil, ctx.Err()
 		case <-m.closed:
-			return nil, ErrStopped
+			return nil, nil, ErrStopped
 		default:
 			data, ok := m.data[memDBKey{duty: duty, pubKey: pubKey, subcommIdx: subcommIdx}]
 			if !ok {
-				return nil, errMustLoop
+				return nil, m.notify, errMustLoop
 			}
 
-			return data.Clone()
+			clone, err := data.Clone()
+
+			return clone, nil, err
 		}
 	}
 
 	for {
-		data, err := query()
+		data, notify, err := query()
 		if err == nil {
 			return data, nil
 		}
@@ -121,13 +125,13 @@ func (m *MemDBV2) Await(ctx context.Context, duty core.Duty, pubKey core.PubKey,
 			return nil, err
 		}
 
-		// Wait for notification or context cancellation
+		// Wait for the next store or context cancellation
 		select {
 		case <-ctx.Done():
 			return nil, ctx.Err()
 		case <-m.closed:
 			return nil, ErrStopped
-		case <-m.notify:
+		case <-notify:
 			// New data available, try again
 			continue
 		}
